@@ -813,6 +813,7 @@ func c08FmtUnits(us []c08CssUnit) string {
 // well-formed stylesheets yield exactly the units the source contains
 func c08OracleWellFormed(r *Rng, tier string, rep *Report) {
 	c08NestedProbes(rep)
+	c08StaleValuesProbe(rep)
 	n := 8000
 	if tier == "thorough" {
 		n = 400000
@@ -878,6 +879,27 @@ func c08OracleWellFormed(r *Rng, tier string, rep *Report) {
 	}
 }
 
+// Values() after a unit that does not fill them: the property counts every token reported through data or Values();
+// a unit that has no values of its own (EndRuleset, EndAtRule, Comment, Token, the end-of-input ErrorGrammar) must not
+// hand out the tokens of an earlier unit again.
+func c08StaleValuesProbe(rep *Report) {
+	for _, in := range []string{"a{b:c}", "a{b:c;}", "@import x;", "a{--x:1}", "a{}", "a{b:c}/**/", "@media x{a{b:c}}"} {
+		units, _, ok := c08RunParser([]byte(in), false)
+		if !ok {
+			continue
+		}
+		for i, u := range units {
+			sets := u.gt == css.AtRuleGrammar || u.gt == css.BeginAtRuleGrammar || u.gt == css.BeginRulesetGrammar ||
+				u.gt == css.DeclarationGrammar || u.gt == css.CustomPropertyGrammar || u.gt == css.QualifiedRuleGrammar || (u.gt == css.ErrorGrammar && u.parseErr)
+			if !sets && len(u.vals) != 0 {
+				rep.Violate("conservation-stale-values", fmt.Sprintf("css parser on %q: unit %d (%v) has no values of its own but Values() returns %s, the tokens of an earlier unit (reported twice)", in, i, u.gt, c08FmtToks(u.vals)), map[string]interface{}{"input": in})
+				break
+			}
+		}
+		rep.Eval("probe-stale:"+in, true, "probe")
+	}
+}
+
 // fixed probes for nested rulesets (the property text asks for "rulesets including nested ones")
 func c08NestedProbes(rep *Report) {
 	show := func(us []c08ParsedUnit) string {
@@ -897,6 +919,20 @@ func c08NestedProbes(rep *Report) {
 		}
 		if bad {
 			rep.Violate("wellformed-nested-start", fmt.Sprintf("css parser on %q: a nested ruleset whose selector starts with a hash, colon or bracket is reported as a parse error: %s", in, show(units)), map[string]interface{}{"input": in})
+		}
+		rep.Eval("probe:"+in, true, "probe")
+	}
+	// 1b. declarations directly inside an at-rule that is nested in a ruleset (CSS Nesting: "a{@media x{b:c}}")
+	for _, in := range []string{"a{@media x{b:c}}", "a{@supports (x:y){b:c;d:e}}"} {
+		units, _, ok := c08RunParser([]byte(in), false)
+		bad := !ok
+		for _, u := range units {
+			if u.parseErr {
+				bad = true
+			}
+		}
+		if bad {
+			rep.Violate("wellformed-nested-at-decl", fmt.Sprintf("css parser on %q: declarations directly inside an at-rule nested in a ruleset are read as a qualified rule and reported as a parse error: %s", in, show(units)), map[string]interface{}{"input": in})
 		}
 		rep.Eval("probe:"+in, true, "probe")
 	}
